@@ -256,7 +256,7 @@ Proof.
   bindn H sp Esp. destruct sp as [[st1 p1]|reason].
   2:{ inv H. assumption. }
   assert (H1 : r_datalog st1 = r_datalog st).
-  { destruct (match props with Some pr => pp_alias pr | None => None end) as [al|]; [|inv Esp; reflexivity].
+  { destruct (match props with Some pr => pp_alias pr | None => None end) as [al|]; [|destruct (p_topic p); inv Esp; reflexivity].
     repeat step Esp; inv Esp; reflexivity. }
   step H; [inv H; rewrite H1; assumption|].
   bindn H x Ex. destruct x as [st3 idxs]. bindn H st4 E4. inv H.
@@ -568,6 +568,7 @@ Lemma handle_last_will_inv st client st' :
 Proof.
   unfold handle_last_will. intros HI H.
   destruct (al_get str_eqb client (r_wills st)) as [w|]; [|inv H; assumption].
+  step H; [inv H; assumption|].
   step H; [inv H; assumption|].
   bindn H x Ex. destruct x as [st3 idxs]. bindn H st4 E4.
   rewrite (drain_notifications_dl _ _ H).
